@@ -1376,7 +1376,7 @@ fc_statements = [
     dict(
         name="c_vector_out_buf_string",
         buf_args=["arg", "size", "len"],
-        c_helper="ShroudLenTrim",
+        c_helper="ShroudStrCopy",
         cxx_local_var="scalar",
         pre_call=["{c_const}std::vector<{cxx_T}> {cxx_var};"],
         post_call=[
@@ -1399,6 +1399,7 @@ fc_statements = [
     dict(
         name="c_vector_inout_buf_string",
         buf_args=["arg", "size", "len"],
+        c_helper="ShroudLenTrim ShroudStrCopy",
         cxx_local_var="scalar",
         pre_call=[
             "std::vector<{cxx_T}> {cxx_var};",
@@ -1851,7 +1852,7 @@ fc_statements = [
         mixin=[
             "c_mixin_cfi_character_arg",
         ],
-        c_helper="ShroudStrCopy",
+        c_helper="ShroudLenTrim ShroudStrCopy",
         cxx_local_var="scalar",
         pre_call=[
             "char *{c_var} = "
